@@ -20,6 +20,7 @@ import (
 	"fmt"
 	"io"
 	"strings"
+	"testing/iotest"
 	"time"
 
 	"seehuhn.de/go/postscript"
@@ -284,6 +285,85 @@ func splitFamily(maxSplits int, budget time.Duration) mc.Family {
 	}
 }
 
+// heavyFamily: inputs that cost millions of operations are read through a few
+// kinds of reader only (the delivery family would take hours on them): what
+// the library may learn from its source besides the bytes - that it can seek,
+// how long it is - must not change the result, in particular not the amount
+// of work it is willing to do.
+func heavyFamily(budget time.Duration) mc.Family {
+	type heavy struct {
+		name, kind string
+		data       []byte
+	}
+	pad := func(n int) string { return strings.Repeat("% padding padding padding padding padding padding padding\n", n/56) }
+	font := corpus.Fonts()[3].Data // clear-text font
+	loopFont := func(rounds, padding int) []byte {
+		return append([]byte("%!PS-AdobeFont-1.0: Heavy 001.000\n"+pad(padding)+fmt.Sprintf("1 1 %d { pop } for\n", rounds)), font[bytes.IndexByte(font, '\n')+1:]...)
+	}
+	cmap := corpus.CMaps()[0].Data
+	loopCMap := func(rounds, padding int) []byte {
+		return append([]byte("%!PS-Adobe-3.0 Resource-CMap\n"+pad(padding)+fmt.Sprintf("1 1 %d { pop } for\n", rounds)), cmap...)
+	}
+	hs := []heavy{
+		{"font, 1.35 million rounds of a loop (about 4 million operations) in a 60 KB file", "font", loopFont(1350000, 60000)},
+		{"font, 0.9 million rounds (about 2.7 million operations) in a 60 KB file", "font", loopFont(900000, 60000)},
+		{"font, 1.35 million rounds in a 2 KB file", "font", loopFont(1350000, 1000)},
+		{"font, 1.35 million rounds in a 400 KB file", "font", loopFont(1350000, 400000)},
+		{"CMap, 0.4 million rounds in a 60 KB file", "cmap", loopCMap(400000, 60000)},
+		{"CMap, 0.3 million rounds in a 400 KB file", "cmap", loopCMap(300000, 400000)},
+	}
+	readers := []string{"bytes.Reader (seekable)", "plain io.Reader", "seekable reader positioned behind 1000 other bytes", "one byte per Read call"}
+	return mc.Family{
+		Name: "heavy-inputs-through-different-readers", Items: len(hs), Budget: budget,
+		Rule: fmt.Sprintf("%d inputs whose programs run a loop of 0.3 .. 1.35 million rounds (just below and above the readers' own operation budgets) in files of 2 KB .. 400 KB, each read through %v: the four results (a font / CMap or the budget error) must be identical; non-trivial = all", len(hs), readers),
+		Body: func(c *mc.Ctx, item int) mc.Verdict {
+			h := hs[item]
+			var obs []string
+			for ri := range readers {
+				var r io.Reader
+				switch ri {
+				case 0:
+					r = bytes.NewReader(h.data)
+				case 1:
+					r = struct{ io.Reader }{bytes.NewReader(h.data)}
+				case 2:
+					br := bytes.NewReader(append(bytes.Repeat([]byte{'#'}, 1000), h.data...))
+					br.Seek(1000, io.SeekStart)
+					r = br
+				default:
+					r = iotest.OneByteReader(bytes.NewReader(h.data))
+				}
+				obs = append(obs, observe.Run(h.kind, r).Obs)
+				c.Step()
+			}
+			for ri := 1; ri < len(obs); ri++ {
+				if obs[ri] != obs[0] {
+					v := mc.Fail("C12:heavy:result-depends-on-the-reader", fmt.Sprintf("%s: through %s: %s; through %s: %s", h.name, readers[0], clipO(obs[0]), readers[ri], clipO(obs[ri])))
+					v.Render = h.name
+					return v
+				}
+			}
+			out := "accepted"
+			if strings.Contains(obs[0], "execution limit") {
+				out = "budget-error"
+			}
+			v := mc.Pass(out, true)
+			if c.Render() {
+				v.Render = h.name + " → " + out + " through all readers"
+			}
+			return v
+		},
+		Describe: func(i int) string { return hs[i].name },
+	}
+}
+
+func clipO(s string) string {
+	if len(s) > 160 {
+		return "…" + s[len(s)-160:]
+	}
+	return s
+}
+
 func main() {
 	mc.Main(mc.Program{
 		Property: "C12",
@@ -300,7 +380,7 @@ func main() {
 				budget = 25 * time.Minute
 				dev, splits = 3, 4
 			}
-			return []mc.Family{deliveryFamily(entries(), dev, budget), splitFamily(splits, budget)}
+			return []mc.Family{deliveryFamily(entries(), dev, budget), splitFamily(splits, budget), heavyFamily(budget)}
 		},
 	})
 }
